@@ -6,8 +6,9 @@ Real code: the unmodified `cherrypy.lib.sessions` behind the sessions tool, driv
 WSGI calls (`cherrypy.Application(Root(), '', conf)(environ, start_response)`); cookies are carried by
 the harness.  Only *module globals naming primitives* are replaced for the duration of a history:
 `sessions.datetime` (logical clock, one tick = one minute), `sessions.time` (cookie dates; `sleep`
-turned into a harness error so lock contention cannot hang), `sessions.os` (`urandom` scripted so that
-ids are numbered and collisions with live ids can be injected; `listdir` sorted).  The sweep is the
+turned into a harness error so lock contention cannot hang), `sessions.os` (`urandom` deterministic; `listdir` sorted), and
+`Session.generate_id` is wrapped (the documented override point for the id source) so that every draw is
+numbered and collisions with live ids can be injected.  The sweep is the
 real `clean_up()` of the first loaded session instance (the one the Monitor would call), invoked
 synchronously between requests (`clean_freq = 0`, no background thread).
 """
@@ -26,7 +27,7 @@ import time as _time
 from . import common
 
 PROPERTY = 'C14'
-LEAN_TARGETS = ['CpProofs.C14', 'drv_c14']
+LEAN_TARGETS = ['CpProofs.C14', 'CpProofs.C14History', 'drv_c14']
 DRIVER = 'drv_c14'
 from .c14_meta import (THEOREMS, TRUSTED_BASE, ASSUMPTIONS, LEVEL, TECHNIQUE, LEVEL_TEXT,  # noqa: E402
                        LEVEL_NOTE, RULE)
@@ -65,21 +66,30 @@ class _World:
         self.reads = []
         self.first_loaded = None
         self.last_dup = False
+        self.presented = set()
 
     def urandom(self, n):
+        """Deterministic "random" bytes: draw number, a marker, a seeded tail."""
+        k = len(self.draws)
+        return (k + 1).to_bytes(4, 'big') + b'\xab' + bytes(self.rnd.randrange(256) for _ in range(n - 5))
+
+    def generate_id(self, inst, real):
+        """Stands in for `Session.generate_id` (the id source is a parameter of the property): numbers
+        every draw, normally returns what the real method returns, and on planned draws returns a *live*
+        id instead (never twice in a row, so the retry loop must terminate)."""
         k = len(self.draws)
         live = self.live()
         if k in self.dups and live and not self.last_dup:
-            # collide with a live id (never twice in a row: the retry loop must terminate)
             sid = live[self.dups[k] % len(live)]
             self.draws.append(self.id_of[sid])
             self.last_dup = True
-            return bytes.fromhex(sid)
+            return sid
         self.last_dup = False
-        raw = (k + 1).to_bytes(4, 'big') + b'\xab' + bytes(self.rnd.randrange(256) for _ in range(n - 5))
-        self.id_of[raw.hex()] = k + 1
-        self.draws.append(k + 1)
-        return raw
+        sid = real(inst)
+        if sid not in self.id_of:
+            self.id_of[sid] = k + 1
+        self.draws.append(self.id_of[sid])
+        return sid
 
     def number(self, s):
         """Model number of an arbitrary id string."""
@@ -93,13 +103,30 @@ class _World:
 W = [None]     # the current _World
 
 
-class _DatetimeShim:
-    timedelta = _datetime.timedelta
+class _FakeDateTime(_datetime.datetime):
+    """`datetime.datetime` whose notion of the present is the logical clock (plain datetime objects are
+    returned, so pickles and comparisons are the ordinary ones)."""
 
-    class datetime:
-        @staticmethod
-        def now():
-            return BASE + _datetime.timedelta(minutes=W[0].clock)
+    @classmethod
+    def now(cls, tz=None):
+        t = BASE + _datetime.timedelta(minutes=W[0].clock)
+        return t if tz is None else t.replace(tzinfo=_datetime.timezone.utc).astimezone(tz)
+
+    @classmethod
+    def utcnow(cls):
+        return BASE + _datetime.timedelta(minutes=W[0].clock)
+
+    @classmethod
+    def today(cls):
+        return BASE + _datetime.timedelta(minutes=W[0].clock)
+
+
+class _DatetimeShim:
+    """Stands for the `datetime` module inside cherrypy.lib.sessions."""
+    datetime = _FakeDateTime
+
+    def __getattr__(self, name):
+        return getattr(_datetime, name)
 
 
 class _TimeShim:
@@ -289,7 +316,9 @@ def run_history(case):
     w = _World(case)
     W[0] = w
     saved = (sessions.datetime, sessions.time, sessions.os)
-    sessions.datetime, sessions.time, sessions.os = _DatetimeShim, _TimeShim(), _OsShim()
+    sessions.datetime, sessions.time, sessions.os = _DatetimeShim(), _TimeShim(), _OsShim()
+    real_generate_id = sessions.Session.generate_id
+    sessions.Session.generate_id = lambda self: w.generate_id(self, real_generate_id)
     sessions.RamSession.cache.clear()
     sessions.RamSession.locks.clear()
     if hasattr(cherrypy, 'session'):
@@ -340,6 +369,8 @@ def run_history(case):
             if kind == 'req':
                 _, client, spec, hops = op
                 cookie = _resolve_cookie(spec, jars, before, w)
+                if cookie is not None and cookie not in w.id_of:
+                    w.presented.add(cookie)
                 w.reads = []
                 # does the file path of this id leave the storage directory (C11's rule, recomputed here)?
                 escapes = bool(backend == 'file' and cookie is not None and '\x00' not in cookie and not
@@ -392,7 +423,11 @@ def run_history(case):
                             pass
                 after = listing()
                 items.append(out + '@' + show_listing(after))
-                mops.append('s')
+                if backend == 'file' and before:
+                    # the order in which (the sorted) os.listdir yields the session files
+                    mops.append('s' + ','.join(str(w.number(x)) for x in sorted(before)))
+                else:
+                    mops.append('s')
                 events.append({'op': 'sweep', 'out': out, 'exc': exc, 'before': before, 'after': after,
                                'now': w.clock, 'ran': inst is not None})
             elif kind == 'tear':
@@ -441,6 +476,7 @@ def run_history(case):
                 'ids': dict(w.id_of)}
     finally:
         sessions.datetime, sessions.time, sessions.os = saved
+        sessions.Session.generate_id = real_generate_id
         sessions.RamSession.cache.clear()
         sessions.RamSession.locks.clear()
         W[0] = None
@@ -877,6 +913,32 @@ end CpModel.Gen.C14
         ctx.note('FileSession._load catches some but not all other classes: %s' % oth)
     return {'CpModel/Gen/C14Tables.lean': src}
 
+def compress_ids(items):
+    """Ids are nominal: replace the numbers of source-drawn ids (< UNKNOWN_BASE) by their rank among the
+    ids appearing in this history, on either side (numbering by draw is monotone on both sides, so equal
+    behaviour gives equal ranks even when an intermediate draw was never observed)."""
+    seen = set()
+    parsed = []
+    for it in items:
+        out, _, ls = it.partition('@')
+        f = out.split(':', 4) if out.startswith('R:') else None
+        ents = [] if ls in ('~', '') else [e.split(':', 1) for e in ls.split('!')]
+        if f and f[2] != '-':
+            seen.add(int(f[2]))
+        for e in ents:
+            seen.add(int(e[0]))
+        parsed.append((out, f, ents, ls))
+    rank = {v: k + 1 for k, v in enumerate(sorted(x for x in seen if x < UNKNOWN_BASE))}
+    res = []
+    for out, f, ents, ls in parsed:
+        if f and f[2] != '-':
+            f = f[:2] + [str(rank.get(int(f[2]), int(f[2])))] + f[3:]
+            out = ':'.join(f)
+        l2 = '!'.join('%s:%s' % (rank.get(int(e[0]), int(e[0])), e[1]) for e in ents) if ents else ls
+        res.append(out + '@' + l2)
+    return res
+
+
 # ----------------------------------------------------------------------------------------------
 def check_cases(ctx, cases, compare=True, shrink=True):
     results = [run_history(c) for c in cases]
@@ -910,7 +972,8 @@ def _report(ctx, cases, results, compare=True, shrink=True):
             ctx.oracle_fail(case, '%s [%s, T=%s]' % (what, case['backend'], case['timeout']), sig)
         if model is not None and (not fails or known_only):
             ctx.compared()
-            mitems = model[idx].split(';')
+            mitems = compress_ids(model[idx].split(';'))
+            res = dict(res, items=compress_ids(res['items']))
             if mitems != res['items']:
                 k = next((i for i, (a, b) in enumerate(zip(res['items'], mitems)) if a != b),
                          min(len(mitems), len(res['items'])))
